@@ -28,18 +28,24 @@ TRUSTED = [
     "Scheduler.schedule is not modelled (property C11): its start times are inputs of the model; the harness checks on the real code that "
     "compile() used them and ordered the instructions by them",
     "the three shipped compilers enter only through correspondence: their gate compilers' Instruction lists are fed to the model",
-    "continuous pulses: only grid monotonicity, array lengths, sample values and zero idle samples are proved; quality of the cubic-spline "
-    "interpolation between samples (idle filling with 10-point linspaces / arange) is NOT covered",
-    "theorems are about the code with fixes/C12-first-pulse-flag.diff applied (model parameter fx = true); fx = false is the unchanged code and is refuted",
+    "continuous pulses: the whole array bookkeeping is proved (grid monotonicity, lengths, contiguous per-instruction blocks at one offset in "
+    "both arrays, no foreign grid point inside a window, zero at every other grid point, the idle grids as 2x10-point linspace / arange); the "
+    "values of the interpolating cubic spline BETWEEN grid points are not modelled (scipy), so 'takes the instruction's waveform' is proved at "
+    "the sample points only",
+    "theorems are about the code with fixes/C12-first-pulse-flag.diff and fixes/C12-idle-gap-time-resolution.diff applied (model parameters "
+    "fx = gx = true); fx = false / gx = false are the respective unchanged tests and are refuted",
 ]
 ASSUMES = [
     "per channel: instruction windows are non-overlapping and ordered by start (checked by the harness on the scheduler's output)",
     "every instruction has positive duration, a time grid starting at 0 and strictly increasing, and matching coefficient length",
-    "guard gaps_ok: an idle gap before an instruction is either 0 or larger than 1e-6 x that instruction's step (else known finding idle-gap-below-tolerance)",
+    "float-resolution guard gaps_ok (gap_tol true res): an idle gap is either 0 or larger than time_resolution = 1e-14 x the latest end time of the "
+    "schedule (about 45 ulp of a double at that time); gaps below it are not generated for the oracle (they lie 14 orders of magnitude below the "
+    "schedule length, outside the property's quantifier range) but are run through the model correspondence",
     "continuous pulses start with coefficient 0 (documented requirement of GateCompiler)",
 ]
 
 TOL = Fraction(1, 10 ** 6)
+RES = Fraction(1, 10 ** 14)
 NEAR = Fraction(1, 2 ** 20)
 
 
@@ -220,7 +226,7 @@ def coq_instr(spec, names):
     return f"(mkI {tl} [{'; '.join(ps)}])"
 
 
-def coq_term(specs, starts, order, mode, fx="true"):
+def coq_term(specs, starts, order, mode, fx="true true"):
     names = {}
     for s in specs:
         for name, _ in s["pulses"]:
@@ -321,7 +327,9 @@ def well_formed(specs):
 
 
 def step_eval(tl, co, t):
-    k = int(np.searchsorted(tl, t, side="right")) - 1
+    """value at time t of the step function with breakpoints tl and values co (tl, t: floats or Fractions)"""
+    import bisect
+    k = bisect.bisect_right(tl, t) - 1
     if 0 <= k < len(tl) - 1 and k < len(co):
         return float(co[k])
     return 0.0
@@ -366,36 +374,39 @@ def oracle(specs, starts, out, exact):
         if any(f["channel"] == name for f in fails):
             continue
         if kinds == {"discrete"}:
+            # dyadic inputs: all evaluation times are computed and compared as exact fractions
+            N = Fraction if exact else float
+            tlN = [N(x) for x in tl]
             # inside windows
             for w in ws:
                 for k, c in enumerate(w["cs"]):
-                    a, b = w["s"] + w["ts"][k], w["s"] + w["ts"][k + 1]
+                    a, b = N(w["s"]) + N(w["ts"][k]), N(w["s"]) + N(w["ts"][k + 1])
                     pts = [(a + b) / 2, a + (b - a) / 4, b - (b - a) / 1024]
                     if exact:
                         pts.append(a)
                     for t in pts:
-                        got = step_eval(tl, co, t)
+                        got = step_eval(tlN, co, t)
                         if got != c:
-                            bad("window", t=t, got=got, want=c, instr=w["idx"], seg=k)
+                            bad("window", t=float(t), t_exact=str(Fraction(t)), got=got, want=c, instr=w["idx"], seg=k)
                             break
             # outside windows
-            prev = 0.0
+            prev = N(0)
             segs = []
             for w in ws:
                 # (non-dyadic inputs: a gap of a few ulps is float noise of the schedule, not an idle gap)
                 if w["s"] > prev and (exact or w["s"] - prev > 1e-9 * max(abs(prev), abs(w["s"]))):
-                    segs.append((prev, w["s"]))
-                prev = w["s"] + w["ts"][-1]
-            end = float(tl[-1])
-            segs.append((prev, max(end, prev) + max(1.0, prev)))
+                    segs.append((prev, N(w["s"])))
+                prev = N(w["s"]) + N(w["ts"][-1])
+            end = tlN[-1]
+            segs.append((prev, max(end, prev) + max(N(1), prev)))
             for a, b in segs:
                 pts = [(a + b) / 2, a + (b - a) / 4, b - (b - a) / 1024]
                 if exact:
                     pts.append(a)
                 for t in pts:
-                    got = step_eval(tl, co, t)
+                    got = step_eval(tlN, co, t)
                     if got != 0.0:
-                        bad("zero", t=t, got=got, want=0.0, gap=[a, b])
+                        bad("zero", t=float(t), t_exact=str(Fraction(t)), got=got, want=0.0, gap=[float(a), float(b)])
                         break
         elif kinds == {"continuous"}:
             def find(t):
@@ -414,6 +425,14 @@ def oracle(specs, starts, out, exact):
                     if co[j] != w["cs"][k]:
                         bad("window", t=t, got=float(co[j]), want=w["cs"][k], instr=w["idx"], seg=k)
                         break
+            # bookkeeping: the grid points inside a window (start, end] are exactly the instruction's samples k >= 1
+            for w in ws:
+                a, b = w["s"], w["s"] + w["ts"][-1]
+                eps = 0.0 if exact else 1e-9 * max(abs(b), 1e-300)
+                inside = [float(t) for t in tl if a + eps < t <= b + eps]
+                if len(inside) != len(w["ts"]) - 1:
+                    bad("window-grid", instr=w["idx"], got=len(inside), want=len(w["ts"]) - 1, window=[a, b])
+                    break
             if co[0] != 0.0:
                 bad("zero", t=0.0, got=float(co[0]), want=0.0, gap=[0.0, 0.0])
             for j, t in enumerate(tl):
@@ -457,12 +476,14 @@ def near_threshold(specs, starts, order, exact=True):
 
     ms = None
     lasts = []
+    ends = [F(w["s"]) + F(w["ts"][-1]) for ws in chans.values() for w in ws]
+    res = RES * max(ends) if ends else F(0)
     for name, ws in chans.items():
         last = F(0)
         for w in ws:
             step = F(w["ts"][1]) - F(w["ts"][0])
             ms = step if ms is None or step < ms else ms
-            if near(last, step * TOL) or near(F(w["s"]) - last, step * TOL):
+            if near(F(w["s"]) - last, res):
                 return True
             if w["kind"] == "continuous" and near_int(F(w["s"]) - last, step):
                 return True
@@ -506,7 +527,7 @@ def classify(failure):
             ws = sorted(wins[obs["channel"]], key=lambda w: w["s"])
         except Exception:
             return None
-        t = Fraction(obs["t"])
+        t = Fraction(obs.get("t_exact", obs["t"]))
         prev = Fraction(0)
         for w in ws:
             s = Fraction(w["s"])
@@ -625,6 +646,25 @@ def gen_case(rng, flavor, big=False):
         gates = [g for g in gates if not any(p[0] == ch or p[0] == "g" for p in g["pulses"])][:3]
         gates = gates + [a, i, b]
         mode = None
+    if flavor in ("resgap", "resgap_below"):
+        # a gap just above (2^-40..2^-45 of the schedule length) or below (2^-47..2^-50) the time resolution
+        # 1e-14 ~ 2^-46.5 of the repaired idle-gap test; all times are exact in binary64
+        k = rng.randint(20, 28)
+        j = rng.randint(40, 45) if flavor == "resgap" else rng.randint(47, 50)
+        e = rng.randint(0, 10)
+        ch = "x0"
+        a = {"name": "G0", "targets": [0], "controls": None, "tl": ["scalar", 2.0 ** k], "pulses": [[ch, _coef(rng)]]}
+        i = {"name": "G2", "targets": [0], "controls": None, "tl": [rng.choice(["none", "scalar"]), 2.0 ** (k - j)], "pulses": []}
+        if rng.random() < 0.5:
+            b = {"name": "G1", "targets": [0], "controls": None, "tl": ["scalar", 2.0 ** (k - j + e)], "pulses": [[ch, _coef(rng)]]}
+        else:
+            h = 2.0 ** (k - j + e - 1)
+            b = {"name": "G1", "targets": [0], "controls": None, "tl": ["arr", [0.0, h, 2 * h]],
+                 "pulses": [[ch, [_coef(rng), _coef(rng)]]]}
+        case = {"kind": "synthetic", "mode": None, "nq": 1, "gates": [a, i, b], "flavor": flavor}
+        if flavor == "resgap_below":
+            case["oracle"] = False      # below the float-resolution guard: model correspondence only
+        return case
     return {"kind": "synthetic", "mode": mode, "nq": nq, "gates": gates, "flavor": flavor}
 
 
@@ -701,13 +741,31 @@ def corpus_cases():
 # ----------------------------------------------------------------------------------------------
 # the check
 # ----------------------------------------------------------------------------------------------
+def float_exact(specs, starts):
+    """all times the compiler computes for this input (start + tlist[k], prefix sums) are exact in binary64"""
+    if specs is None or starts is None:
+        return True
+    try:
+        acc = Fraction(0)
+        for spec, s in zip(specs, starts):
+            kind, val = spec["tl"]
+            ts = [float(val)] if kind != "arr" else [float(x) for x in val]
+            for t in ts:
+                if Fraction(s) + Fraction(t) != Fraction(float(s) + t):
+                    return False
+    except Exception:
+        return True
+    return True
+
+
 def judge(case):
     """real run + oracle. returns (real result dict, list of observed-failure dicts, exact flag)"""
     real = run_real(case)
-    exact = case["kind"] == "synthetic"
+    exact = case["kind"] == "synthetic" and float_exact(real["specs"], real["starts"])
     fails = []
     specs, starts = real["specs"], real["starts"]
-    if specs is not None and starts is not None and well_formed(specs) and any(s["pulses"] for s in specs):
+    if case.get("oracle", True) and specs is not None and starts is not None and well_formed(specs) \
+            and any(s["pulses"] for s in specs):
         fails = oracle(specs, starts, real["out"], exact)
         for f in fails:
             f["starts"] = starts
@@ -752,7 +810,8 @@ def correspond(ctx):
     cases = list(corpus_cases())
     n_corpus = len(cases)
     plan = [("discrete", ctx.n(400, 2500)), ("continuous", ctx.n(300, 2000)), ("perqubit", ctx.n(200, 1200)),
-            ("mixed", ctx.n(120, 800)), ("ratio", ctx.n(150, 800)), ("lategap", ctx.n(80, 400))]
+            ("mixed", ctx.n(120, 800)), ("ratio", ctx.n(150, 800)), ("lategap", ctx.n(80, 400)),
+            ("resgap", ctx.n(40, 200)), ("resgap_below", ctx.n(20, 100))]
     for flavor, n in plan:
         for _ in range(n):
             cases.append(gen_case(rng, flavor, big=ctx.thorough and rng.random() < 0.5))
@@ -826,7 +885,7 @@ def search(ctx, broken):
         if isinstance(detail, dict) and isinstance(detail.get("input"), dict):
             cands.append(detail["input"])
     rng = ctx.rng
-    for flavor in ("ratio", "lategap", "discrete", "continuous", "perqubit"):
+    for flavor in ("ratio", "lategap", "resgap", "discrete", "continuous", "perqubit"):
         for _ in range(ctx.n(150, 800)):
             cands.append(gen_case(rng, flavor))
     for case in cands:
